@@ -333,9 +333,10 @@ def run(tier):
         by_verdict[o["verdict"]] += 1
         if o["verdict"] == "harness_unsupported":
             raise C.ToolError("harness could not run a record: %s" % json.dumps(o)[:400])
-        rec = next((r for r in records if r["id"] == o.get("id") and r["exp"] == o.get("exp") and
-                    r["dir"] == o.get("dir") and r.get("prof") == o.get("prof") and
-                    r.get("lv", 0) == o.get("lv", 0) and r["name"] == o.get("name")), None)
+        want = (o.get("detail") or {}).get("input") if isinstance(o.get("detail"), dict) else None
+        rec = next((r for r in records if r["name"] == o.get("name") and r["exp"] == o.get("exp") and
+                    r["dir"] == o.get("dir") and r.get("lv", 0) == o.get("lv", 0) and
+                    (want is None or bytes(r["hdr"] + r["body"]).hex() == want)), None)
         v.report(observation(o), replay={"verdict": o, "record": rec, "tier": tier,
                                          "typed": {"%s/%s" % k: val for k, val in typed.items()}})
     rc = v.finish()
